@@ -1,2 +1,5 @@
+pub mod c04;
+pub mod c08;
 pub mod codec;
+pub mod sched;
 pub mod seq;
